@@ -174,6 +174,7 @@ package consensus
 //@ func NewConsensusPayload
 //@   loops 0
 //@   ensures [C19] @fresh result != nil
+//@   ensures [C19] @asGiven as(Payload, result).height == height && as(Payload, result).message.viewNumber == viewNumber && as(Payload, result).validatorIndex == validatorIndex && as(Payload, result).message.cmType == t && as(Payload, result).message.payload == consensusMessage && as(Payload, result).hash == nil && as(Payload, result).version == 0
 //@ func fromPayload
 //@   loops 0
 //@   modifies nothing
@@ -460,3 +461,17 @@ package consensus
 //@   ensures [C19] @root result != nil && as(amevBlock, result).base.MerkleRoot == gLastRootHash && len(gTreeOver) == len(as(amevBlock, result).transactions)
 //@   ensures [C19] @rootOverFinalList forall(k, 0, len(gTreeOver), gTreeOver[k] == as(amevBlock, result).transactions[k].Hash())
 //@   ensures [C19] @headerKept as(amevBlock, result).base.Index == as(preBlock, pre).base.Index && as(amevBlock, result).base.PrevHash == as(preBlock, pre).base.PrevHash && as(amevBlock, result).base.Timestamp == as(preBlock, pre).base.Timestamp && as(amevBlock, result).base.ConsensusData == as(preBlock, pre).base.ConsensusData
+
+// ---- the reference callbacks keep what package dbft assumes of its callbacks (A3, A4) ----
+// once a proposal is known (its hash list was set, possibly to an empty list) the block constructor gives a block:
+// an empty proposal is a proposal (C17: the example's chain goes on when its pools are empty)
+//@ func newBlockFromContext
+//@   loops 0
+//@   requires ctx != nil && ctx.Timestamp / 1000000000 <= 4294967295
+//@   ensures [C19,C17] @blockOnceProposalKnown implies(old(!isnil(ctx.TransactionHashes)), result != nil)
+//@   ensures [C19] @fromTheContext implies(old(!isnil(ctx.TransactionHashes)), as(neoBlock, result).base.Index == old(ctx.BlockIndex) && as(neoBlock, result).base.PrevHash == old(ctx.PrevHash) && as(neoBlock, result).base.ConsensusData == old(ctx.Nonce) && as(neoBlock, result).base.Timestamp == old(ctx.Timestamp) / 1000000000)
+// a payload made for the context carries the context's height, view and own index, the given type and body
+//@ func defaultNewConsensusPayload
+//@   loops 0
+//@   requires c != nil && 0 <= c.MyIndex && c.MyIndex <= 65535
+//@   ensures [C19] @forTheContext result != nil && as(Payload, result).height == old(c.BlockIndex) && as(Payload, result).message.viewNumber == old(c.ViewNumber) && as(Payload, result).validatorIndex == old(c.MyIndex) && as(Payload, result).message.cmType == t && as(Payload, result).message.payload == msg && as(Payload, result).hash == nil
